@@ -265,6 +265,123 @@ def execute_continued(ex: Execution, backend: str, idle_timeout: float) -> tuple
         return obs, v
 
 
+def wf_two_waits_busy() -> Any:
+    """one step waits for two answers in turn, another keeps the run busy at first (so that a restarted server resumes the handler)"""
+    from vmc.engine import gate, make_step, make_workflow
+    from vmc.events import Done
+
+    async def ask(self, ctx, ev, inv):  # noqa: ANN001
+        a = await ctx.wait_for_event(Resp, waiter_id="w0")
+        b = await ctx.wait_for_event(Done, waiter_id="w1")
+        return StopEvent(result=f"{a.uid},{b.uid}")
+
+    async def keeper(self, ctx, ev, inv):  # noqa: ANN001
+        await gate("keeper")
+        return None
+
+    return make_workflow("TwoWaitsBusy", [make_step("ask", [StartEvent], [StopEvent], ask), make_step("keeper", [StartEvent], [None], keeper)])
+
+
+def execute_restart_then_idle(ex: Execution, backend: str, idle_timeout: float) -> tuple[Any, list[Any]]:
+    """the server is stopped while a handler is busy; the restarted server's start-up pass reads that run's tick log slowly (a store
+    whose reads suspend) - meanwhile a client's answer reloads the run on demand, the run works, goes idle and is released.  When the
+    slow read finally returns, the released run must stay released (or be released again): idle longer than idle_timeout => not in memory"""
+    from llama_agents.server._store.sqlite.sqlite_workflow_store import SqliteWorkflowStore
+    from vmc.events import Done
+    from vmc.loop import VLoop
+
+    sh.clear_graveyard()
+    sh.reset_ids()
+    ih.reset()
+    path = sh.fresh_sqlite_path() if backend == "sqlite" else None
+    store = sh.make_store(backend, path)
+    ctl = sh.CrashControl(2)  # after the waiting step has registered its first wait; the other step is still running
+    e1 = EngineExec(ex, RunConfig(max_actions=40, allow_time=False))
+    e1.__enter__()
+    crashed = False
+    try:
+        try:
+            ctl.arm(store)
+            stack = sh.Stack(store, idle_timeout=idle_timeout, wrap_basic=MonRuntime)
+            wf = wf_two_waits_busy()(timeout=None)
+            stack.add_workflow("wf", wf)
+
+            async def boot() -> None:
+                await stack.service.start()
+                await stack.service.start_workflow(wf, "h1", StartEvent())
+
+            e1.loop.create_task(boot())
+            e1.cfg.gate_filter = lambda hh, g: False  # (the busy step stays busy until the process stops)
+            e1.drive()
+        except sh.Crash:
+            crashed = True
+        vt = e1.loop.vt
+    finally:
+        if crashed:
+            sh.bury(e1.loop)
+            e1.abandon()
+        else:
+            e1.__exit__(None, None, None)
+        ctl.disarm(store)
+    if not crashed:
+        raise RuntimeError("harness: the first process was not stopped")
+    store2 = store if backend == "memory" else SqliteWorkflowStore(path, poll_interval=1.0, auto_migrate=False)
+    loop2 = VLoop()
+    loop2.vt = vt
+    v: list[Any] = []
+    w = {"stack": "in_process", "after_restart": True, "startup_read_slow": True}
+    with EngineExec(ex, RunConfig(max_actions=60, allow_time=True), loop=loop2) as e2:
+        import asyncio as _aio
+
+        late = _aio.Event()
+        first_read = {"taken": False}
+        orig_stream = store2.stream_ticks
+
+        async def stream_ticks(run_id: str) -> Any:
+            slow = not first_read["taken"]
+            first_read["taken"] = True
+            got = [t async for t in orig_stream(run_id)]
+            if slow:
+                await late.wait()  # the start-up pass's read of the log is in flight for a long time
+            for t in got:
+                yield t
+
+        store2.stream_ticks = stream_ticks  # type: ignore[method-assign]
+        stack2 = sh.Stack(store2, idle_timeout=idle_timeout, wrap_basic=MonRuntime)
+        wf2 = wf_two_waits_busy()(timeout=None)
+        stack2.add_workflow("wf", wf2)
+        boot2 = e2.loop.create_task(stack2.service.start())
+        sends: list[Any] = []
+        e2.add_script([Action("send Resp#1 (reloads the run on demand)", lambda: sends.append(e2.loop.create_task(stack2.service.send_event("h1", Resp(uid=1)))))])
+        e2.add_script([Action("the start-up pass's slow read returns", late.set)])
+        e2.cfg.time_filter = lambda h: bool(e2.loop.timer_deadlines()) and e2.loop.timer_deadlines()[0] - e2.loop.vt < 1000
+        e2.drive()
+        hd = ih.query_handler(e2.loop, store2)
+        run_id = getattr(hd, "run_id", None)
+        in_memory = run_id in stack2.idle._active_run_ids or bool(ih.LIVE["loops"].get(run_id))
+        desc = f"[in_process/{backend}] restarted server, slow start-up read, idle_timeout={idle_timeout}, schedule {ex.labels}"
+        if late.is_set() and boot2.done() and hd is not None and hd.status == "running" and hd.idle_since is not None and sends and all(t.done() for t in sends):
+            from vmc.loop import BASE_WALL
+
+            idle_for = e2.loop.vt - (hd.idle_since.timestamp() - BASE_WALL)
+            pending_release = any(d - e2.loop.vt < 1000 for d in e2.loop.timer_deadlines())
+            if in_memory and idle_for > idle_timeout + 1e-9 and not pending_release:
+                v.append(("idle_run_not_released_after_timeout", {**w, "release_timer": "none_pending"},
+                          f"{desc}: the handler has been idle for {idle_for:.1f}s, the run is in memory again and nothing is scheduled that would release it"))
+        # the run must still be usable: the second answer completes it
+        if late.is_set() and boot2.done() and not v and hd is not None and hd.status == "running":
+            t = e2.loop.create_task(stack2.service.send_event("h1", Done(uid=2)))
+            e2.drive()
+            hd2 = ih.query_handler(e2.loop, store2)
+            got = getattr(getattr(hd2, "result", None), "result", None)
+            if t.done() and (hd2 is None or hd2.status != "completed" or got != "1,2") and not e2.capped:
+                v.append(("reloaded_run_does_not_continue_from_where_it_stopped", {**w, "released_before_event": bool(ih.RELEASES)},
+                          f"{desc}: after both answers the handler is {getattr(hd2, 'status', None)} with result {got!r}, expected completed '1,2'"))
+        obs = {"status": getattr(hd, "status", None), "in_memory": in_memory, "releases": len(ih.RELEASES),
+               "_metrics": {"max_concurrency": 2, "releases": len(ih.RELEASES)}}
+        return obs, v
+
+
 def programs(tier: str) -> list[Program]:
     q = tier == "quick"
     ps = []
@@ -278,6 +395,9 @@ def programs(tier: str) -> list[Program]:
     for backend in (("memory",) if q else ("memory", "sqlite")):
         ps.append(Program(f"in_process/{backend}/idle_timeout=5.0/waits=1/unhandled_event", {"backend": backend, "idle_timeout": 5.0, "waits": 1, "noise": True},
                           (lambda ex, backend=backend: execute(ex, backend, 5.0, 1, "in_process", "n/a", False, True)), max_dev=(4 if q else None)))
+    for backend in (("memory",) if q else ("memory", "sqlite")):
+        ps.append(Program(f"in_process/{backend}/idle_timeout=5.0/restart_slow_startup_read", {"backend": backend, "idle_timeout": 5.0, "restart": True},
+                          (lambda ex, backend=backend: execute_restart_then_idle(ex, backend, 5.0)), max_dev=(4 if q else 6)))
     for backend in ("memory", "sqlite"):
         ps.append(Program(f"in_process/{backend}/idle_timeout=5.0/continued_handler", {"backend": backend, "idle_timeout": 5.0, "continued": True},
                           (lambda ex, backend=backend: execute_continued(ex, backend, 5.0)), max_dev=(4 if q else None)))
